@@ -227,8 +227,13 @@ def run_case(case, rec, ssj=None):
         rec.count('calls')
         gafter = monitors.global_state()
         rec.count('global_state_snapshots_compared')
-        if gafter != gstate:
-            diff = sorted(k for k in gafter if gafter[k] != gstate.get(k))
+        soft = ('random.state', 'np.random.state', 'environ')     # may be touched by joblib / pandas
+        if any(gafter[x] != gstate.get(x) for x in soft):
+            rec.count('global_state_soft_changes(rng/environ, not judged)')
+        hard_before = dict((x, v) for x, v in gstate.items() if x not in soft)
+        hard_after = dict((x, v) for x, v in gafter.items() if x not in soft)
+        if hard_after != hard_before:
+            diff = sorted(x for x in hard_after if hard_after[x] != hard_before.get(x))
             rec.violation('global_state', 'history seed=%d step %d/%d %s changed process-wide state that '
                           'later calls depend on: %s' % (case['seed'], k, nsteps, api, ', '.join(
                               '%s: %s -> %s' % (d, gstate.get(d), gafter[d]) for d in diff[:4])),
